@@ -515,7 +515,7 @@ func c15r4(p *Program, r *Report) {
 				}
 				return strings.Contains(atom, "rr") || strings.Contains(atom, "== nil")
 			})
-			g.markNodes = nil
+			defer func(g *Graph) { g.markNodes = nil }(g)
 			for _, e := range g.Exits() {
 				rs, ok := e.Node.(*ast.ReturnStmt)
 				if !ok || len(rs.Results) != 1 {
